@@ -15,7 +15,7 @@ from harness import common as C
 
 HEADER = """From Coq Require Import List ZArith QArith Bool. Import ListNotations.
 From Coq Require Import Uint63.
-From TLV Require Import Base.Ops Base.Tensor Model.Svd Model.SvdComplex Model.SvdValidate Corr.C05.
+From TLV Require Import Base.Ops Base.Tensor Model.Svd Model.SvdConj Model.SvdComplex Model.SvdValidate Corr.C05.
 Open Scope nat_scope.
 Notation "'D' m e" := (dy false m%uint63 e%uint63) (at level 0, m at level 0, e at level 0, only parsing).
 Notation "'N' m e" := (dy true m%uint63 e%uint63) (at level 0, m at level 0, e at level 0, only parsing)."""
@@ -482,6 +482,9 @@ NONE = object()          # the Python value None
 OPAQUE = object()        # anything that is not integer decision logic (arrays, calls of linear algebra)
 
 
+SHAPE_SYM = {("U", 0): "ru", ("U", 1): "cu", ("V", 0): "rv", ("V", 1): "cv", ("S", 0): "ls"}
+
+
 def g_expr(e, env):
     """integer-valued Python expression -> Gallina nat term"""
     if isinstance(e, ast.Constant) and isinstance(e.value, int) and not isinstance(e.value, bool) and e.value >= 0:
@@ -493,6 +496,13 @@ def g_expr(e, env):
         return v
     if isinstance(e, ast.BinOp) and isinstance(e.op, ast.Add):
         return f"({g_expr(e.left, env)} + {g_expr(e.right, env)})"
+    if isinstance(e, ast.BinOp) and isinstance(e.op, ast.Sub) and env.get("__allow_sub__"):
+        # natural-number subtraction truncates at 0; only used where the source guards the subtraction by a comparison (the goal is
+        # proved for ALL naturals, so an unguarded use that differs from the model shows up as a failing goal)
+        return f"({g_expr(e.left, env)} - {g_expr(e.right, env)})"
+    if isinstance(e, ast.Subscript) and is_call(e.value, "shape") and len(e.value.args) == 1 and isinstance(e.value.args[0], ast.Name) \
+            and isinstance(e.slice, ast.Constant) and (e.value.args[0].id, e.slice.value) in SHAPE_SYM and env.get("__shapes__"):
+        return SHAPE_SYM[(e.value.args[0].id, e.slice.value)]
     if isinstance(e, ast.Call) and isinstance(e.func, ast.Name) and e.func.id in ("min", "max") and len(e.args) >= 2 and not e.keywords:
         fn = "Nat.min" if e.func.id == "min" else "Nat.max"
         acc = g_expr(e.args[0], env)
@@ -671,7 +681,8 @@ def return_bounds(ret, env):
 
 TIE_TAC = """Ltac tie := intros;
   repeat match goal with x : option nat |- _ => destruct x end;
-  cbv [svd_checks dec_full dec_trunc_bounds dec_symeig_tall dec_symeig_bounds dec_rand_ndims dec_rand_transposed];
+  cbv [svd_checks dec_full dec_trunc_bounds dec_symeig_tall dec_symeig_bounds dec_rand_ndims dec_rand_transposed
+       dec_nn_range dec_flip_pad dec_mask_st];
   repeat match goal with
   | |- context [?a <? ?b] => destruct (Nat.ltb_spec a b)
   | |- context [?a <=? ?b] => destruct (Nat.leb_spec a b)
@@ -679,7 +690,7 @@ TIE_TAC = """Ltac tie := intros;
   end; cbn [andb orb negb];
   first [ reflexivity | (repeat f_equal; lia) | (exfalso; lia) ]."""
 HEAD = """From Coq Require Import Arith Bool Lia.
-From TLV Require Import Model.Svd Proofs.SvdDecisions.
+From TLV Require Import Base.Ops Base.Tensor Model.Svd Model.SvdConj Proofs.SvdDecisions Proofs.SvdDecisions2.
 """ + TIE_TAC + "\n"
 
 
@@ -864,12 +875,252 @@ def ties(src):
                 "Goal forall mg ng fl nn_on, interface_trace mg ng fl nn_on = ast_trace mg ng fl nn_on.\nProof. intros [] [] [] []; reflexivity. Qed.\n"
                 f"Goal forall a, nn_truthy a = {nn_guard}.\nProof. intros []; reflexivity. Qed.\n")
 
+
+    # ---------------- round 7 ----------------
+    SH = {"__shapes__": True}
+
+    def t_nn():
+        """make_svd_non_negative: `nntype is True -> "<name>"`, the loop range, the per-column choice, the final chain"""
+        fn = funs["make_svd_non_negative"]
+        NT = {"nndsvd": "NNDSVD", "nndsvda": "NNDSVDA"}
+        true_as = None
+        loops = [st for st in fn.body if isinstance(st, ast.For)]
+        if len(loops) != 1:
+            raise Untranslatable(f"expected one top-level loop, found {len(loops)}")
+        for st in fn.body:
+            if isinstance(st, ast.If) and isinstance(st.test, ast.Compare) and isinstance(st.test.left, ast.Name) and st.test.left.id == "nntype" \
+                    and len(st.test.ops) == 1 and isinstance(st.test.ops[0], ast.Is) and isinstance(st.test.comparators[0], ast.Constant) \
+                    and st.test.comparators[0].value is True:
+                if len(st.body) != 1 or not isinstance(st.body[0], ast.Assign) or st.orelse or not isinstance(st.body[0].value, ast.Constant) \
+                        or st.body[0].value.value not in NT or not (isinstance(st.body[0].targets[0], ast.Name) and st.body[0].targets[0].id == "nntype"):
+                    raise Untranslatable("`if nntype is True:` body")
+                true_as = NT[st.body[0].value.value]
+        if true_as is None:
+            raise Untranslatable("`if nntype is True: nntype = ...` not found")
+        lp = loops[0]
+        if not (is_call(lp.iter, "range") and len(lp.iter.args) == 2 and not lp.orelse):
+            raise Untranslatable("loop is not `for j in range(a, b)`")
+        lo, hi = g_expr(lp.iter.args[0], SH), g_expr(lp.iter.args[1], SH)
+
+        def atom(e):
+            if isinstance(e, ast.Compare) and len(e.ops) == 1 and isinstance(e.left, ast.Name):
+                l_, op, r_ = e.left.id, e.ops[0], e.comparators[0]
+                if isinstance(op, ast.Eq) and isinstance(r_, ast.Constant) and r_.value == 0 and not isinstance(r_.value, bool) and l_ in ("m_p", "m_n"):
+                    return "zp" if l_ == "m_p" else "zn"
+                if isinstance(r_, ast.Name):
+                    if (isinstance(op, ast.Gt) and (l_, r_.id) == ("m_p", "m_n")) or (isinstance(op, ast.Lt) and (l_, r_.id) == ("m_n", "m_p")):
+                        return "gt"
+            if isinstance(e, ast.BoolOp):
+                return "(" + (" && " if isinstance(e.op, ast.And) else " || ").join(atom(v) for v in e.values) + ")"
+            if isinstance(e, ast.UnaryOp) and isinstance(e.op, ast.Not):
+                return f"(negb {atom(e.operand)})"
+            raise Untranslatable("condition in the NNDSVD loop: " + ast.dump(e)[:80])
+
+        def kind(stmts):
+            names = {n_.id for st in stmts for n_ in ast.walk(st) if isinstance(n_, ast.Name) and isinstance(n_.ctx, ast.Load)}
+            if not all(isinstance(st, ast.Assign) for st in stmts) or not names:
+                raise Untranslatable("branch of the NNDSVD choice is not a list of assignments")
+            if all(n_.endswith("_p") or n_.endswith("_p_nrm") for n_ in names):
+                return "NPos"
+            if all(n_.endswith("_n") or n_.endswith("_n_nrm") for n_ in names):
+                return "NNeg"
+            raise Untranslatable(f"branch of the NNDSVD choice mixes positive and negative parts: {sorted(names)}")
+
+        def choice(stmts):
+            for i, st in enumerate(stmts):
+                if isinstance(st, ast.If):
+                    if len(st.body) == 1 and isinstance(st.body[0], ast.Continue) and not st.orelse:
+                        return f"(if {atom(st.test)} then NSkip else {choice(stmts[i + 1:])})"
+                    if st.orelse and not any(isinstance(x, ast.If) for x in stmts[i + 1:]):
+                        return f"(if {atom(st.test)} then {kind(st.body)} else {kind(st.orelse)})"
+                    raise Untranslatable(f"line {st.lineno}: if statement in the NNDSVD loop is neither the skip guard nor the choice")
+                if isinstance(st, (ast.For, ast.While, ast.Continue, ast.Break, ast.Return)):
+                    raise Untranslatable(f"line {st.lineno}: control flow in the NNDSVD loop")
+            raise Untranslatable("no choice between positive and negative parts in the NNDSVD loop")
+        ch = choice(lp.body)
+        # final chain
+        idx = fn.body.index(lp)
+        chain = next((st for st in fn.body[idx + 1:] if isinstance(st, ast.If)), None)
+        fin, node = {}, chain
+        while node is not None:
+            t = node.test
+            if not (isinstance(t, ast.Compare) and isinstance(t.left, ast.Name) and t.left.id == "nntype" and len(t.ops) == 1 and isinstance(t.ops[0], ast.Eq)
+                    and isinstance(t.comparators[0], ast.Constant) and t.comparators[0].value in NT):
+                raise Untranslatable("final chain of make_svd_non_negative: test")
+            calls = {(c.func.id if isinstance(c.func, ast.Name) else getattr(c.func, "attr", None)) for x in node.body for c in ast.walk(x) if isinstance(c, ast.Call)}
+            if "soft_thresholding" in calls and "where" not in calls:
+                fin.setdefault(NT[t.comparators[0].value], "FinSoft")
+            elif "where" in calls and "soft_thresholding" not in calls:
+                fin.setdefault(NT[t.comparators[0].value], "FinFill")
+            else:
+                raise Untranslatable("final chain of make_svd_non_negative: branch body")
+            if len(node.orelse) == 1 and isinstance(node.orelse[0], ast.If):
+                node = node.orelse[0]
+                continue
+            if not node.orelse or not all(isinstance(x, ast.Raise) for x in node.orelse):
+                raise Untranslatable("final chain of make_svd_non_negative: else branch is not a raise")
+            node = None
+        if set(fin) != {"NNDSVD", "NNDSVDA"}:
+            raise Untranslatable(f"final chain covers {sorted(fin)}")
+        return (f"Goal dec_nn_true = {true_as}.\nProof. reflexivity. Qed.\n"
+                f"Goal forall ru cu rv cv ls : nat, dec_nn_range cu rv = ({lo}, {hi}).\nProof. tie. Qed.\n"
+                f"Goal forall zp zn gt : bool, dec_nn_choice zp zn gt = {ch}.\nProof. intros [] [] []; reflexivity. Qed.\n"
+                f"Goal forall ty, dec_nn_final ty = match ty with NNDSVD => {fin['NNDSVD']} | NNDSVDA => {fin['NNDSVDA']} end.\nProof. intros []; reflexivity. Qed.\n")
+
+    def t_flip():
+        """svd_flip: how many ones are appended to the sign vector and where it is cut, for both decisions"""
+        fn = funs["svd_flip"]
+        top = [st for st in fn.body if isinstance(st, ast.If) and isinstance(st.test, ast.Name) and st.test.id == "u_based_decision"]
+        if len(top) != 1 or not top[0].orelse:
+            raise Untranslatable("`if u_based_decision: ... else: ...` not found")
+        env = {"__shapes__": True, "__allow_sub__": True}
+
+        def branch(stmts):
+            pads = [st for st in stmts if isinstance(st, ast.If)]
+            if len(pads) != 1 or pads[0].orelse or len(pads[0].body) != 1 or not isinstance(pads[0].body[0], ast.Assign):
+                raise Untranslatable("padding statement `if shape(..) > shape(..): signs = concatenate(...)`")
+            a_ = pads[0].body[0]
+            if not (isinstance(a_.targets[0], ast.Name) and a_.targets[0].id == "signs" and is_call(a_.value, "concatenate")):
+                raise Untranslatable("padding statement does not assign signs = concatenate(...)")
+            ones = [c for c in ast.walk(a_.value) if is_call(c, "ones")]
+            tup = a_.value.args[0] if a_.value.args else None
+            if len(ones) != 1 or not ones[0].args or not (isinstance(tup, ast.Tuple) and len(tup.elts) == 2 and isinstance(tup.elts[0], ast.Name)
+                                                           and tup.elts[0].id == "signs" and tup.elts[1] is ones[0]):
+                raise Untranslatable("padding is not concatenate((signs, ones(n)))")
+            pad = f"(if {g_bool(pads[0].test, env)} then {g_expr(ones[0].args[0], env)} else 0)"
+            cuts = [x for st in stmts for x in ast.walk(st) if isinstance(x, ast.Subscript) and isinstance(x.value, ast.Name) and x.value.id == "signs"
+                    and isinstance(x.slice, ast.Slice)]
+            if len(cuts) != 1 or cuts[0].slice.lower is not None or cuts[0].slice.step is not None or cuts[0].slice.upper is None:
+                raise Untranslatable("slice signs[:n] not found exactly once")
+            if stmts.index(pads[0]) > min(i for i, st in enumerate(stmts) if any(x is cuts[0] for x in ast.walk(st))):
+                raise Untranslatable("the sign vector is cut before it is padded")
+            return pad, g_expr(cuts[0].slice.upper, env)
+        pu, bu = branch(top[0].body)
+        pv, bv = branch(top[0].orelse)
+        return (f"Goal forall ru cu rv cv : nat, dec_flip_pad cu rv = ({pu}, {bu}).\nProof. tie. Qed.\n"
+                f"Goal forall ru cu rv cv : nat, dec_flip_pad rv cu = ({pv}, {bv}).\nProof. tie. Qed.\n")
+
+    def t_mask():
+        """the imputation loop of svd_interface: iteration count, shape of St, number of diagonal entries written"""
+        fn = funs["svd_interface"]
+        guard_if = [st for st in fn.body if isinstance(st, ast.If) and any(isinstance(x, ast.For) for x in st.body)
+                    and any(isinstance(n_, ast.Name) and n_.id == "mask" for n_ in ast.walk(st.test))]
+        if len(guard_if) != 1:
+            raise Untranslatable("the `if mask is not None ...:` block with the imputation loop")
+        loops = [x for x in guard_if[0].body if isinstance(x, ast.For)]
+        if len(loops) != 1 or not (is_call(loops[0].iter, "range") and len(loops[0].iter.args) == 1 and isinstance(loops[0].iter.args[0], ast.Name)):
+            raise Untranslatable("imputation loop is not `for _ in range(<parameter>)`")
+        params = [a.arg for a in fn.args.args]
+        if loops[0].iter.args[0].id != "n_iter_mask_imputation" or "n_iter_mask_imputation" not in params:
+            raise Untranslatable("imputation loop does not run n_iter_mask_imputation times")
+        eyes = [c for st in loops[0].body for c in ast.walk(st) if is_call(c, "eye")]
+        inner = [st for st in loops[0].body if isinstance(st, ast.For)]
+        if len(eyes) != 1 or len(eyes[0].args) != 2 or len(inner) != 1 or not (is_call(inner[0].iter, "range") and len(inner[0].iter.args) == 1):
+            raise Untranslatable("St = tl.eye(r, c) / `for i in range(n)` not found")
+        upd = [c for c in ast.walk(inner[0]) if is_call(c, "index_update")]
+        if len(upd) != 1:
+            raise Untranslatable("diagonal update of St")
+        r_, c_, l_ = g_expr(eyes[0].args[0], SH), g_expr(eyes[0].args[1], SH), g_expr(inner[0].iter.args[0], SH)
+        return (f"Goal forall iters ru cu rv cv ls : nat, dec_mask_st iters cu rv ls = (iters, {r_}, {c_}, {l_}).\nProof. tie. Qed.\n")
+
+    def t_range_finder():
+        """randomized_range_finder: the sequence of tl.qr calls as a generated Gallina function, proved equal to range_finder_conj"""
+        fn = funs["randomized_range_finder"]
+        menv = {"A": "A"}        # matrix-valued names -> Gallina term
+
+        def mexpr(e):
+            if isinstance(e, ast.Name) and e.id in menv:
+                return menv[e.id]
+            if is_call(e, "conj") and len(e.args) == 1:
+                return f"(cjmat cj {mexpr(e.args[0])})"
+            if is_call(e, "transpose") and len(e.args) == 1 and isinstance(e.args[0], ast.Name) and e.args[0].id == "A":
+                return "(transp Op cA A)"
+            raise Untranslatable("matrix expression " + ast.dump(e)[:80])
+
+        def qr_stmt(st):
+            """`Q, _ = tl.qr(tl.dot(X, Q))` -> X"""
+            if isinstance(st, ast.Assign) and isinstance(st.targets[0], ast.Tuple) and len(st.targets[0].elts) == 2 \
+                    and isinstance(st.targets[0].elts[0], ast.Name) and st.targets[0].elts[0].id == "Q" and is_call(st.value, "qr") \
+                    and len(st.value.args) == 1 and is_call(st.value.args[0], "dot") and len(st.value.args[0].args) == 2 \
+                    and isinstance(st.value.args[0].args[1], ast.Name) and st.value.args[0].args[1].id == "Q":
+                return st.value.args[0].args[0]
+            return None
+        pre, loop_body, seenG, seen_loop, aux = [], [], False, False, {}
+        for st in fn.body:
+            if isinstance(st, ast.Expr) and isinstance(st.value, ast.Constant):
+                continue
+            if isinstance(st, ast.Return):
+                if not (isinstance(st.value, ast.Name) and st.value.id == "Q"):
+                    raise Untranslatable("does not return Q")
+                break
+            x = qr_stmt(st)
+            if x is not None:
+                if seen_loop:
+                    raise Untranslatable("tl.qr call after the power iterations")
+                pre.append(mexpr(x))
+                continue
+            if isinstance(st, ast.For):
+                if seen_loop or not (is_call(st.iter, "range") and len(st.iter.args) == 1 and isinstance(st.iter.args[0], ast.Name) and st.iter.args[0].id == "n_iter"):
+                    raise Untranslatable("power-iteration loop is not `for i in range(n_iter)`")
+                seen_loop = True
+                for b in st.body:
+                    xb = qr_stmt(b)
+                    if xb is None:
+                        raise Untranslatable(f"line {b.lineno}: statement in the power-iteration loop is not `Q, _ = tl.qr(tl.dot(X, Q))`")
+                    loop_body.append(xb)
+                continue
+            if isinstance(st, ast.Assign) and len(st.targets) == 1 and isinstance(st.targets[0], ast.Name):
+                nm = st.targets[0].id
+                if nm == "Q":
+                    if seenG or pre or not any(is_call(c, "normal") for c in ast.walk(st.value)):
+                        raise Untranslatable("Q is assigned other than by the Gaussian draw / tl.qr")
+                    seenG = True
+                    continue
+                if nm in ("rng",):
+                    continue
+                try:
+                    aux[nm] = mexpr(st.value)
+                    continue
+                except Untranslatable:
+                    if any(isinstance(n_, ast.Name) and n_.id in ("Q", "A") for n_ in ast.walk(st.value)):
+                        raise
+                    continue
+            if isinstance(st, ast.Assign) and isinstance(st.targets[0], ast.Tuple) and is_call(st.value, "shape"):
+                continue
+            raise Untranslatable(f"line {st.lineno}: statement of randomized_range_finder not understood")
+        if not seenG or not seen_loop or len(aux) > 1:
+            raise Untranslatable("Gaussian draw / power-iteration loop / at most one auxiliary matrix")
+        auxname = next(iter(aux), None)
+        menv2 = dict(menv)
+        if auxname:
+            menv2[auxname] = "AH"
+        menv.update(menv2)
+        body_terms = [mexpr(x) for x in loop_body]
+        lets, call = [], "call"
+        for t_ in body_terms:
+            lets.append(f"    let Q := qr {call} (mmul Op (ncols Q) {t_} Q) in")
+            call = f"(S {call})"
+        pre_lets = [f"  let Q := qr {i} (mmul Op (ncols Q) {t_} Q) in" for i, t_ in enumerate(pre)]
+        return ("Section T.\nContext {F : Type} (Op : fops F) (cj : F -> F).\n"
+                "Fixpoint ast_loop (qr : nat -> list (list F) -> list (list F)) (A AH : list (list F)) (n_iter call : nat) (Q : list (list F)) : list (list F) :=\n"
+                "  match n_iter with\n  | 0 => Q\n  | S k_ =>\n" + "\n".join(lets) + f"\n    ast_loop qr A AH k_ {call} Q\n  end.\n"
+                "Definition ast_rf (qr : nat -> list (list F) -> list (list F)) (A : list (list F)) (cA : nat) (G : list (list F)) (n_iter : nat) : list (list F) :=\n"
+                "  let Q := G in\n" + "\n".join(pre_lets) + f"\n  let AH := {aux.get(auxname, 'A')} in\n  ast_loop qr A AH n_iter {len(pre)} Q.\n"
+                "Lemma loop_eq qr A AH : forall n call Q, power_iter Op qr A AH n call Q = ast_loop qr A AH n call Q.\n"
+                "Proof. induction n as [|n IH]; intros call Q; cbn [power_iter ast_loop]; [reflexivity | apply IH]. Qed.\n"
+                "Goal forall qr A cA G n_iter, range_finder_conj Op cj qr A cA G n_iter = ast_rf qr A cA G n_iter.\n"
+                "Proof. intros. unfold range_finder_conj, ast_rf. apply loop_eq. Qed.\nEnd T.\n")
+
     attempt("svd_interface", t_dispatch)
     attempt("svd_interface_steps", t_interface_steps)
     attempt("svd_checks", t_svd_checks)
     attempt("truncated_svd", t_truncated)
     attempt("symeig_svd", t_symeig)
     attempt("randomized_svd", t_randomized)
+    attempt("make_svd_non_negative", t_nn)
+    attempt("svd_flip", t_flip)
+    attempt("svd_interface_mask_loop", t_mask)
+    attempt("randomized_range_finder", t_range_finder)
     return out
 
 
@@ -888,7 +1139,10 @@ def run_ast_tie(chk):
         return res
     for name, text, why in items:
         if text is None:
+            # FAIL CLOSED (round 7): a source the translator no longer understands is a broken tie, not a silent loss of coverage
             res["untranslated"].append(f"{name}: {why}")
+            chk.broken.append({"what": f"ast tie: tensorly.tenalg.svd.{name} can no longer be translated into the decision logic of the model (fail closed)",
+                               "detail": why})
             continue
         fn = os.path.join(d, f"Tie_{name}.v")
         open(fn, "w").write(text)
@@ -1362,7 +1616,27 @@ def direct_cases(chk, tier, rng):
             continue
         dcases.append(lit)
         dmeta.append(meta_)
+        # round 7: the hypotheses of C05_range_finder_covers (reduced-QR contract of the LAST tl.qr answer, "the last sketch spans the
+        # columns of A" with an explicit witness C, A = X C) evaluated INSIDE Coq on the recorded run (Corr/C05.v sketch_ok); the witness
+        # comes from a least-squares solve and is only offered when n_eigenvecs + n_oversamples covers the numerical rank
+        try:
+            Xs = qrs[-1][0]
+            if Qf.shape[0] == A_.shape[0] and Xs.shape[0] == A_.shape[0] and nd_ >= num_rank(np.linalg.svd(M, compute_uv=False)):
+                Cw = np.linalg.lstsq(Xs, A_, rcond=None)[0]
+                sc_ = max(1.0, float(np.max(np.abs(A_), initial=0.0)))
+                if np.all(np.isfinite(Cw)) and np.max(np.abs(A_ - Xs @ Cw), initial=0.0) <= 1e-9 * sc_ and np.max(np.abs(Cw), initial=0.0) < 1e6:
+                    dcases.append(f"(DSketch {len(dcases)}%nat {d1}%nat {d2}%nat {optnat(n)} {n_over}%nat {n_iter}%nat {qmat(M)} {qmat(drawn[0])} "
+                                  f"[{'; '.join(qr_ents)}] {qmat(Cw)})")
+                    dmeta.append(dict(meta_, call="randomized_svd(sketch hypotheses: qr_ok, spans, covers)"))
+                    chk.cov["sketch_hypotheses_in_coq"] = chk.cov.get("sketch_hypotheses_in_coq", 0) + 1
+                else:
+                    chk.cov["sketch_witness_ill_conditioned"] = chk.cov.get("sketch_witness_ill_conditioned", 0) + 1
+            else:
+                chk.cov["sketch_rank_not_covered"] = chk.cov.get("sketch_rank_not_covered", 0) + 1
+        except (ValueError, np.linalg.LinAlgError):
+            pass
     complex_cases(chk, tier, rng, svdmod, dcases, dmeta)
+    complex_cases_r7(chk, tier, rng, svdmod, dcases, dmeta, RecRS)
     reject_cases(chk, svdmod, dcases, dmeta)
     return dcases, dmeta
 
@@ -1520,6 +1794,142 @@ def complex_cases(chk, tier, rng, svdmod, dcases=None, dmeta=None):
                     dcases.append(f"(DIfaceC {len(dcases)}%nat {d1}%nat {d2}%nat {METH_LIT[method]} {optnat(n)} true {C.boolc(ub)} "
                                   f"{cmat_lit(M)} {tape} (Ok {ctriple_lit((U, S, V))}))")
                     dmeta.append(dict(inp, call="svd_interface(complex)"))
+
+
+def complex_cases_r7(chk, tier, rng, svdmod, dcases, dmeta, RecRS):
+    """round 7: complex randomized_svd called directly (Gaussian draw, every tl.qr and tl.svd answer taped; the conjugate-aware model
+    Model/SvdConj.v randomized_svd_conj at the Gaussian rationals does products, conjugate transposes, branch choice, power iterations,
+    inner truncation and lifting) and complex svd_interface requests WITH A MASK (method truncated_svd, LAPACK's answers for the matrix of
+    every back-end call taped by call order; the model does the imputation loop, the slicing and the conjugate-aware flip)."""
+    from tensorly.backend.numpy_backend import NumpyBackend
+
+    def cv():
+        return complex(rng.randint(-8, 8) / 4.0, rng.randint(-8, 8) / 4.0)
+
+    def well_conditioned():
+        for _ in range(2000):
+            d1, d2 = rng.randint(1, 5), rng.randint(1, 5)
+            M = np.array([[cv() for _ in range(d2)] for _ in range(d1)])
+            sig = np.linalg.svd(M, compute_uv=False)
+            if sig.max() == 0 or sig.min() < 0.2 * sig.max() or (len(sig) > 1 and np.min(sig[:-1] - sig[1:]) < 0.05 * sig.max()):
+                continue
+            return d1, d2, M, sig
+        return None
+    for _ in range(10 if tier == "quick" else 70):
+        wc = well_conditioned()
+        if wc is None:
+            break
+        d1, d2, M, sig = wc
+        n = rng.choice([None] + list(range(1, max(d1, d2) + 2)))
+        n_over, n_iter, seed = rng.choice([0, 1, 2, 5]), rng.choice([0, 1, 2]), rng.randrange(10 ** 6)
+        qrs, svds = [], []
+
+        def rec_qr(a, *args, **kw):
+            r_ = np.linalg.qr(a, *args, **kw)
+            qrs.append((np.array(a, dtype=complex, copy=True), np.array(r_[0], copy=True)))
+            return r_
+
+        def rec_svd(a, full_matrices=True, **kw):
+            r_ = np.linalg.svd(a, full_matrices=full_matrices, **kw)
+            svds.append((np.array(a, dtype=complex, copy=True), bool(full_matrices), tuple(np.array(x, copy=True) for x in r_)))
+            return r_
+        rs = RecRS(seed)
+        NumpyBackend.register_method("qr", rec_qr)
+        NumpyBackend.register_method("svd", rec_svd)
+        try:
+            out = C.call_impl(lambda: svdmod.randomized_svd(M.copy(), n_eigenvecs=n, n_oversamples=n_over, n_iter=n_iter, random_state=rs))
+        finally:
+            NumpyBackend.register_method("qr", np.linalg.qr)
+            NumpyBackend.register_method("svd", np.linalg.svd)
+        inp = {"call": "randomized_svd(complex)", "matrix": [[str(z) for z in row] for row in M], "n_eigenvecs": n, "n_oversamples": n_over,
+               "n_iter": n_iter, "random_state": seed}
+        chk.count(key=("randomized_svd_complex", M.shape, n, n_over, n_iter, M.tobytes()), nontrivial=M.size > 1)
+        chk.hist("method", "randomized_svd(complex direct)")
+        if out[0] == "crash" and out[1] == "timeout":
+            continue
+        drawn = getattr(rs, "drawn", [])
+        if out[0] != "ok" or len(drawn) != 1 or not qrs or not svds:
+            chk.finding("tensorly.tenalg.svd.randomized_svd", inp, f"randomized_svd failed on a well-conditioned complex matrix: {out[0]} {str(out[1])[:100]}", "C05_complex_returns")
+            continue
+        U, S, V = (np.asarray(x) for x in out[1])
+        if not finite3((np.abs(U), np.abs(S), np.abs(V))):
+            chk.finding("tensorly.tenalg.svd.randomized_svd", inp, "non-finite entries (complex input)", "C05_complex")
+            continue
+        # predicates (tests): Hermitian-orthonormal factors; exact SVD when the rank is covered
+        k_ = max(d1, d2) if n is None else min(n, max(d1, d2))
+        p_ = S.shape[0]
+        msg = None
+        if np.max(np.abs(U.conj().T @ U - np.eye(U.shape[1])), initial=0.0) > 1e-9 or np.max(np.abs(V @ V.conj().T - np.eye(V.shape[0])), initial=0.0) > 1e-9:
+            msg = "factors are not orthonormal (Hermitian inner product)"
+        elif min(k_ + n_over, max(d1, d2)) >= min(d1, d2):
+            if np.max(np.abs(np.real(S) - sig[:p_]), initial=0.0) > 1e-9 * sig.max():
+                msg = "S differs from the leading singular values although the rank is covered"
+            elif abs(float(np.sum(np.abs(M - (U[:, :p_] * S) @ V[:p_, :]) ** 2)) - float(np.sum(sig[p_:] ** 2))) > 1e-9 * float(np.sum(sig ** 2)):
+                msg = "error identity fails although the rank is covered"
+        if msg:
+            chk.finding("tensorly.tenalg.svd.randomized_svd", inp, msg + " (complex input)", "C05_complex")
+        try:
+            sv_ents = []
+            for (m_, full, ans) in svds:
+                other = tuple(np.linalg.svd(m_, full_matrices=not full))
+                a_, b_ = (ans, other) if full else (other, ans)
+                sv_ents.append(f"({cmat_lit(m_)}, {ctriple_lit(a_)}, {ctriple_lit(b_)})")
+            qr_ents = [f"({cmat_lit(m_)}, {cmat_lit(q_)})" for (m_, q_) in qrs]
+            dcases.append(f"(DRandomC {len(dcases)}%nat {d1}%nat {d2}%nat {optnat(n)} {n_over}%nat {n_iter}%nat {cmat_lit(M)} {cmat_lit(drawn[0])} "
+                          f"[{'; '.join(qr_ents)}] [{'; '.join(sv_ents)}] {ctriple_lit((U, S, V))})")
+            dmeta.append(inp)
+        except (ValueError, np.linalg.LinAlgError):
+            continue
+    # complex svd_interface with a mask
+    for _ in range(10 if tier == "quick" else 70):
+        wc = well_conditioned()
+        if wc is None:
+            break
+        d1, d2, M, sig = wc
+        n = rng.randint(1, max(d1, d2) + 1)
+        iters = rng.choice([1, 1, 2])
+        flip, ub = rng.random() < 0.8, rng.random() < 0.5
+        mask = make_mask((d1, d2), rng)
+        if mask is None:
+            mask = np.ones((d1, d2))
+        mask = np.asarray(mask, dtype=float)
+        calls = []
+
+        def rec_svd2(a, full_matrices=True, **kw):
+            calls.append(np.array(a, dtype=complex, copy=True))
+            return np.linalg.svd(a, full_matrices=full_matrices, **kw)
+        NumpyBackend.register_method("svd", rec_svd2)
+        try:
+            out = C.call_impl(lambda: svdmod.svd_interface(M.copy(), method="truncated_svd", n_eigenvecs=n, flip_sign=flip, u_based_flip_sign=ub,
+                                                           mask=mask.copy(), n_iter_mask_imputation=iters))
+        finally:
+            NumpyBackend.register_method("svd", np.linalg.svd)
+        inp = {"call": "svd_interface(complex, mask)", "matrix": [[str(z) for z in row] for row in M], "method": "truncated_svd", "n_eigenvecs": n,
+               "flip_sign": flip, "u_based_flip_sign": ub, "mask": mask.tolist(), "n_iter_mask_imputation": iters}
+        chk.count(key=("svd_interface_complex_mask", M.shape, n, flip, ub, iters, M.tobytes(), mask.tobytes()), nontrivial=M.size > 1)
+        chk.hist("method", "truncated_svd(complex, mask)")
+        if out[0] == "crash" and out[1] == "timeout":
+            continue
+        if out[0] != "ok" or len(calls) != 1 + iters:
+            chk.finding(EP, inp, f"svd_interface with a mask failed on a complex matrix / unexpected number of tl.svd calls ({len(calls)}): {out[0]} {str(out[1])[:100]}", "C05_complex_returns")
+            continue
+        U, S, V = (np.asarray(x) for x in out[1])
+        if not finite3((np.abs(U), np.abs(S), np.abs(V))):
+            chk.finding(EP, inp, "non-finite entries (complex input, mask)", "C05_complex")
+            continue
+        # predicate (test): the matrix last handed to LAPACK equals the input on the observed entries
+        if np.max(np.abs((calls[-1] - M) * mask), initial=0.0) > 0:
+            chk.finding(EP, inp, "imputation changed an observed entry (complex input)", "C05_complex")
+        if flip and near_tie([U[:, j] for j in range(U.shape[1])] if ub else [V[i, :] for i in range(V.shape[0])], rel=1e-7):
+            chk.cov["complex_near_tie_skipped"] = chk.cov.get("complex_near_tie_skipped", 0) + 1
+            continue
+        try:
+            ents = [f"({cmat_lit(m_)}, {ctriple_lit(np.linalg.svd(m_, full_matrices=True))}, {ctriple_lit(np.linalg.svd(m_, full_matrices=False))})" for m_ in calls]
+        except (ValueError, np.linalg.LinAlgError):
+            continue
+        dcases.append(f"(DIfaceCM {len(dcases)}%nat {d1}%nat {d2}%nat {optnat(n)} {C.boolc(flip)} {C.boolc(ub)} {cmat_lit(M)} {cmat_lit(mask)} {iters}%nat "
+                      f"[{'; '.join(ents)}] (Ok {ctriple_lit((U, S, V))}))")
+        dmeta.append(inp)
 
 
 # ----------------------------------------------------------------------------- replay
